@@ -125,7 +125,15 @@ def make_objects(spec, cfg_dt_src):
         shape = tuple(int(hi - lo) for lo, hi in b["box"])
         o = fdtdx.UniformMaterialObject(name=b.get("name", f"blk{i}"), partial_grid_shape=shape, material=mk_material(b),
                                         **({"placement_order": int(b["order"])} if "order" in b else {}))
-        cons += box_constraints(o, b["box"])
+        if b.get("real_lo") is not None:
+            # lower face pinned to an ABSOLUTE physical coordinate along one axis (snapped to the nearest grid edge), grid indices elsewhere
+            from fdtdx.objects.object import RealCoordinateConstraint, GridCoordinateConstraint
+            ra = int(b["real_lo"]["axis"])
+            oth = [a for a in range(3) if a != ra]
+            cons.append(RealCoordinateConstraint(object=o.name, axes=(ra,), sides=("-",), coordinates=(float(b["real_lo"]["coord"]),)))
+            cons.append(GridCoordinateConstraint(object=o.name, axes=tuple(oth), sides=("-",) * 2, coordinates=tuple(int(b["box"][a][0]) for a in oth)))
+        else:
+            cons += box_constraints(o, b["box"])
         objs.append(o)
     for i, s in enumerate(spec.get("sources") or []):
         name = s.get("name", f"src{i}")
